@@ -59,6 +59,7 @@ def Sense(
                     mps[c * coil_batch_size : ((c + 1) * coil_batch_size)],
                     coord=coord,
                     weights=weights,
+                    tseg=tseg,
                     ishape=ishape,
                 )
                 for c in range(num_coil_batches)
